@@ -34,7 +34,6 @@ Toks(c, dir, a, b) == [i \in 1 .. (IF b >= a THEN b - a + 1 ELSE 0) |-> Tok(c, d
 Other(dir) == 3 - dir
 SeqRange(s) == {s[i] : i \in DOMAIN s}
 Min(S) == CHOOSE x \in S : \A y \in S : x <= y
-IsTcpData(p) == p.kind = "data"
 
 (************************* the abstract receiver ***************************)
 (* Per direction: `started` (the position of the first stream byte is     *)
